@@ -4,8 +4,12 @@ import os
 import shutil
 import time
 
+import re
+
 import common
 import ctxplan
+
+_TABLE = re.compile(r'^<<"TABLE", (".*")>>$', re.M)
 
 # design-level model checking done for each property: (module, cfg) per tier
 DESIGN = {
@@ -72,9 +76,26 @@ def _run(prop, tier, seed, replay, work, t0):
             # unbounded TLAPS proofs of the Galois / closure / order-duality core of the oracle
             design_info.append(common.run_tlapm('GaloisProofs', work))
 
+    # spec -> code: the exhaustive part of the corpus is the reachable state space of TableGen.tla
+    sset = ctxplan.shape_set(prop, tier)
+    g = common.design_mc('TableGen', f'GEN_{sset}.cfg', work, workers=1, xmx='6g')
+    tables = _TABLE.findall(g['out'])
+    if len(tables) != g['distinct'] or not tables:
+        raise common.MachineryError(f'TableGen: {len(tables)} tables printed for {g["distinct"]} distinct states')
+    tpath = os.path.join(work, 'tables.jsonl')
+    with open(tpath, 'w', encoding='utf-8') as f:
+        for t in tables:
+            f.write(json.loads(t) + '\n')
+    states += g['distinct']
+    transitions += g['generated']
+    design_info.append({'module': 'TableGen', 'cfg': f'GEN_{sset}.cfg', 'distinct_states': g['distinct'],
+                        'states_generated': g['generated'], 'tables_emitted': len(tables),
+                        'wall_s': round(g['wall'], 1)})
+
     def one(shard):
         out = os.path.join(work, f'shard{shard}.ndjson')
-        args = ['rec_ctx_worker.py', '--prop', prop, '--tier', tier, '--seed', str(seed), '--out', out]
+        args = ['rec_ctx_worker.py', '--prop', prop, '--tier', tier, '--seed', str(seed), '--out', out,
+                '--tables', tpath]
         if replay is not None:
             args += ['--only', str(replay['b'])]
         else:
@@ -124,6 +145,9 @@ def _run(prop, tier, seed, replay, work, t0):
                            'clauses': sorted({m['clause'] for m in gm}),
                            'n_mismatching_events': len(gm)}
                 verdict.fail(sig, f"behaviour {b}: {first['ev']} fails clause {first['clause']}", payload, name=f'b{b}')
+    if replay is None and tot['exhaustive_tables'] != len(tables):
+        raise common.MachineryError(f"exhaustive corpus mismatch: TLC enumerated {len(tables)} tables, the recorder "
+                                    f"used {tot['exhaustive_tables']}")
     nviol, nknown = verdict.report()
     cov = {
         'states': max(states, 1), 'transitions': max(transitions, 1),
@@ -135,7 +159,8 @@ def _run(prop, tier, seed, replay, work, t0):
         'samples': samples[:4],
         'exhaustive': tot['exhaustive_tables'] > 0,
         'exhaustive_tables': tot['exhaustive_tables'],
-        'exhaustive_shapes': 'all boolean tables of the shapes listed in harness/ctxplan.py for this tier',
+        'exhaustive_shapes': f'the reachable states of spec/TableGen.tla with Shapes = {sset} (every boolean table of '
+                             'those shapes), enumerated by TLC and cross-checked against the number recorded',
         'max_concepts_in_a_lattice': tot['max_concepts'], 'max_objects_or_properties': tot['max_width'],
         'design_model_checking': design_info,
         'foreign_clause_mismatches': foreign,
